@@ -486,6 +486,13 @@ pub struct BrokenDownTime {
     second: Option<t::Second>,
     subsec: Option<t::SubsecNanosecond>,
     offset: Option<Offset>,
+    // The instant parsed by `%s`. When present, it
+    // is the instant this broken down time refers
+    // to. (The civil fields above are then its
+    // decomposition in UTC. An offset or a time
+    // zone parsed in addition only determines
+    // the time zone of a `Zoned`.)
+    timestamp: Option<Timestamp>,
     // Used to confirm that it is consistent
     // with the date given. It usually isn't
     // used to pick a date on its own, but can
@@ -879,6 +886,21 @@ impl BrokenDownTime {
         &self,
         db: &TimeZoneDatabase,
     ) -> Result<Zoned, Error> {
+        // When `%s` was parsed, then we have the instant itself, and the
+        // offset or the time zone only say where to look at it from. (See
+        // `BrokenDownTime::to_timestamp`.)
+        if let Some(timestamp) = self.timestamp {
+            return match (self.offset, self.iana_time_zone()) {
+                (_, Some(iana)) => Ok(timestamp.to_zoned(db.get(iana)?)),
+                (Some(offset), None) => {
+                    Ok(timestamp.to_zoned(TimeZone::fixed(offset)))
+                }
+                (None, None) => Err(err!(
+                    "either offset (from %z) or IANA time zone identifier \
+                     (from %Q) is required for parsing zoned datetime",
+                )),
+            };
+        }
         let dt = self
             .to_datetime()
             .context("datetime required to parse zoned datetime")?;
@@ -938,6 +960,13 @@ impl BrokenDownTime {
     /// ```
     #[inline]
     pub fn to_timestamp(&self) -> Result<Timestamp, Error> {
+        // When `%s` was parsed, then we have the instant itself. We must not
+        // recompute it from the civil fields, since they were derived from it
+        // in UTC, while the offset may have been replaced by a subsequent
+        // `%z` directive.
+        if let Some(timestamp) = self.timestamp {
+            return Ok(timestamp);
+        }
         let dt = self
             .to_datetime()
             .context("datetime required to parse timestamp")?;
